@@ -4,6 +4,7 @@ import (
 	"fmt"
 	"go/token"
 	"go/types"
+	"sort"
 	"strings"
 
 	"golang.org/x/tools/go/ssa"
@@ -475,6 +476,7 @@ func (ex *Exec) modularCall(fr *Frame, st *State, pc *Term, fn *ssa.Function, c 
 	}
 	ex.checkRequires(fr, st, pc, fn, c, args, binds, pos)
 	pre := st.clone()
+	prePC, preN := pc, len(ex.assumptions)
 	targets := ex.modTargets(fr, st, pc, c, args)
 	ws := ex.V.writeSet(fn)
 	nextPre := st.next
@@ -490,6 +492,9 @@ func (ex *Exec) modularCall(fr *Frame, st *State, pc *Term, fn *ssa.Function, c 
 	// allocates live at ids >= nextPre, about which nothing was ever assumed, so the
 	// components need not be replaced as a whole: the havoc is a set of point updates.
 	ex.havocTargets(st, pc, targets)
+	if c.ModAny {
+		ex.havocWritten(st, fn, ws)
+	}
 	// ghost components (files, buffers, sync.Map versions) the callee may write are unknown afterwards;
 	// the lock set is restored by the callee (its lock-balance obligation)
 	for comp := range ws {
@@ -510,6 +515,15 @@ func (ex *Exec) modularCall(fr *Frame, st *State, pc *Term, fn *ssa.Function, c 
 	for _, e := range c.Ensures {
 		t := ex.evalClauseEnv(fr, st, pc, e, env).(VBool).T
 		ex.assume(pc, t)
+	}
+	if cc := ex.curContract; cc != nil && !fr.spec && len(c.Ensures) > 0 {
+		// guard against a callee postcondition that contradicts the caller's state (everything after
+		// the call would be proved vacuously)
+		base := relName(ex.curFn) + "#vacuity:call-returns:" + fn.Name()
+		ex.nameCount[base]++
+		ex.obls = append(ex.obls, &Obligation{Name: fmt.Sprintf("%s#%d", base, ex.nameCount[base]),
+			Kind: "vacuity", Props: cc.Props, Fn: ex.curFn.String(), Pos: ex.V.fset.Position(pos).String(),
+			NAssume: len(ex.assumptions), PC: pc, Goal: False, Vacuity: true, PrePC: prePC, PreNAssume: preN})
 	}
 	ex.V.noteUsed(c)
 	switch len(rvals) {
@@ -1021,5 +1035,71 @@ func (ex *Exec) havocTargets(st *State, pc *Term, targets []modTarget) {
 				upd(vn[i], func(c *Term) *Term { return Store(c, m.T, Fresh("havocmap", srt.Elem)) })
 			}
 		}
+	}
+}
+
+// havocWritten: the callee promises no frame ("modifies-anything"), so every heap component its body
+// (transitively) may write is unknown afterwards. The only objects kept are ghost globals (variables
+// declared in *_verif.go files) of packages the callee's package does not import: no executable code
+// can name them or hold their address, and neither can the callee's specification.
+func (ex *Exec) havocWritten(st *State, fn *ssa.Function, ws map[string]bool) {
+	reach := map[*types.Package]bool{}
+	var walk func(p *types.Package)
+	walk = func(p *types.Package) {
+		if p == nil || reach[p] {
+			return
+		}
+		reach[p] = true
+		for _, q := range p.Imports() {
+			walk(q)
+		}
+	}
+	root := fn
+	for root.Parent() != nil {
+		root = root.Parent()
+	}
+	if root.Pkg != nil {
+		walk(root.Pkg.Pkg)
+	}
+	type keep struct{ id, val *Term }
+	kept := map[string][]keep{}
+	for _, pkg := range ex.V.prog.AllPackages() {
+		if reach[pkg.Pkg] || !strings.HasPrefix(pkg.Pkg.Path(), "github.com/free5gc/chf") {
+			continue
+		}
+		for _, m := range pkg.Members {
+			g, ok := m.(*ssa.Global)
+			if !ok || !strings.HasSuffix(ex.V.fset.Position(g.Pos()).Filename, "_verif.go") {
+				continue
+			}
+			et := under(g.Type()).(*types.Pointer).Elem()
+			for i, srt := range leafSorts(et) {
+				name := hCompName(et, i)
+				if !ws[name] {
+					continue
+				}
+				if compSorts[name] == nil {
+					compSorts[name] = ArrSort(BV64, srt)
+				}
+				id := ex.V.globalID(g)
+				kept[name] = append(kept[name], keep{id, Select(st.comp(name, compSorts[name]), id)})
+			}
+		}
+	}
+	var names []string
+	for comp := range ws {
+		names = append(names, comp)
+	}
+	sort.Strings(names)
+	for _, comp := range names {
+		if comp == "next" || strings.HasPrefix(comp, "G|") || compSorts[comp] == nil {
+			continue
+		}
+		ex.noteWrite(comp)
+		nc := Fresh("havoc$"+comp, compSorts[comp])
+		for _, k := range kept[comp] {
+			nc = Store(nc, k.id, k.val)
+		}
+		st.setComp(comp, nc)
 	}
 }
